@@ -110,3 +110,34 @@ Section Proofs.
 End Proofs.
 
 Print Assumptions charmap_from_empty.
+
+(* characters above U+FFFE are never mapped: every stored interval ends at or below 0xFFFE *)
+Section Upper.
+  Variable R : Type.
+  Definition others_ok (m : cmap R) : Prop := Forall (fun e => snd (fst e) <= 65534) (others R m).
+  Lemma find_above l c : Forall (fun e : Z * Z * option R => snd (fst e) <= 65534) l -> 65534 < c -> find R l c = None.
+  Proof.
+    induction l as [|[[a b] r] l IH]; intros H Hc; [reflexivity|]. inversion H as [|x y Hx Hy]; subst. simpl in *.
+    destruct (Z.leb_spec a c); destruct (Z.leb_spec c b); simpl; try lia; apply IH; auto.
+  Qed.
+  Lemma add_others_ok m a b r m' : others_ok m -> add_interval R m a b r = Done R m' -> others_ok m'.
+  Proof.
+    unfold add_interval, others_ok. intros H. destruct (b <? a); [discriminate|].
+    destruct (Z.leb_spec 65535 b).
+    - simpl. destruct (a <? 256); simpl; [intros E; inversion E; subst; constructor; simpl; auto; lia|].
+      destruct (65534 <? a); [discriminate|]. intros E; inversion E; subst. constructor; simpl; auto; lia.
+    - destruct (Z.leb_spec 256 b).
+      + destruct (a <? 256); [destruct (b <? 256); [discriminate|]|destruct (b <? a); [discriminate|]]; intros E; inversion E; subst; constructor; simpl; auto; lia.
+      + intros E; inversion E; subst; simpl; auto.
+  Qed.
+  Theorem lookup_above ops : forall m m' c, others_ok m -> run R m ops = Done R m' -> 65534 < c -> lookup R m' c = None.
+  Proof.
+    induction ops as [|o ops IH]; intros m m' c Hm Hr Hc; simpl in Hr.
+    - inversion Hr; subst. unfold lookup. destruct (Z.ltb_spec c 0); [reflexivity|]. destruct (Z.ltb_spec c 256); [lia|]. apply find_above; auto.
+    - destruct (apply R m o) as [m1|] eqn:E; [|discriminate]. apply (IH m1 m' c); auto.
+      destruct o as [a b r|r|]; simpl in E.
+      + eapply add_others_ok; eauto.
+      + unfold add_default in E. eapply add_others_ok; eauto.
+      + inversion E; subst. constructor.
+  Qed.
+End Upper.
